@@ -307,10 +307,22 @@ class Gen:
         icmode, ics = self.group_ics(ty, k)
         kw = self.kw_for(ty)
         feat = {'group': 'parallel', 'ty': ty, 'k': k, 'mixed_orientation': False, 'ic': icmode}
+        feat['wired'] = False
         for j in range(k):
             flip = mixed and rng.random() < 0.5
             feat['mixed_orientation'] = feat['mixed_orientation'] or flip
-            self.add(ty, a, b, ic=ics[j], flip=flip, kw=kw)
+            u, v = a, b
+            if rng.random() < 0.35:
+                # the member reaches the rails through wires: its own node names are not the
+                # canonical names of the equipotential nodes
+                feat['wired'] = True
+                if rng.random() < 0.8:
+                    u = self.fresh()
+                    self.add('W', a, u, val=False)
+                if rng.random() < 0.8:
+                    v = self.fresh()
+                    self.add('W', b, v, val=False)
+            self.add(ty, u, v, ic=ics[j], flip=flip, kw=kw)
         self.features.append(feat)
 
 
@@ -503,6 +515,13 @@ def gen_rewrites(rng, ck, quick):
         pick = rng.sample(others, min(2, len(others)))
         fresh = [str(50 + i) for i in range(len(pick))]
         pool.append({'op': 'renumber', 'kwargs': {'node_map': dict(zip(pick, fresh))}})
+    if len(others) >= 3:
+        # partial maps whose targets are small numbers the automatic numbering would also hand out
+        for _ in range(1 if quick else 3):
+            keys = rng.sample(others, rng.choice([1, 1, 2]))
+            small = [str(i) for i in range(1, len(nodes) + 1) if str(i) not in keys]
+            if len(small) >= len(keys):
+                pool.append({'op': 'renumber', 'kwargs': {'node_map': dict(zip(keys, rng.sample(small, len(keys))))}, 'must': True})
     for op in ('copy', 'expand', 's_model', 'noise_model_killed'):
         pool.append({'op': op, 'kwargs': {}})
     pool.append({'op': 'replace_switches', 'kwargs': {'t': rng.randint(0, 5)}})
@@ -521,7 +540,9 @@ def gen_rewrites(rng, ck, quick):
     if syms:
         pool.append({'op': 'subs', 'kwargs': {'subs': syms}, 'lines': lines})
     if quick:
-        rws += rng.sample(pool, min(5, len(pool)))
+        must = [r for r in pool if r.get('must')]
+        rest = [r for r in pool if not r.get('must')]
+        rws += must + rng.sample(rest, min(5, len(rest)))
     else:
         rws += pool
     return rws
@@ -684,6 +705,8 @@ def run(chk, replay=None):
                     chk.count('seeded', 'interleaved')
                 if f.get('observed'):
                     chk.count('seeded', 'observed:' + f['observed'])
+                if f.get('wired'):
+                    chk.count('seeded', 'parallel-member-via-wires:' + f['ty'])
         if 'orig_err' in r0:
             chk.count('degenerate', 'lcapy-rejects-netlist:' + r0['orig_err'].split(':')[0])
             chk.case(('reject', tuple(c['lines'])), False)
@@ -755,12 +778,22 @@ def run(chk, replay=None):
                 if orig_sol is None:
                     continue
                 ren = {}
-                if op == 'renumber':
-                    nm = drv.ask1('rw.nodemap %s || %s' % (' '.join('%s:%s' % (a, b) for a, b in sorted(kw.get('node_map', {}).items())),
-                                                            ' | '.join(orig_lines)))
-                    if not nm.startswith('err:'):
-                        ren = dict(x.split(':') for x in nm.split(',') if x)
                 new_lines = [canon_line(x) for x in rr['canon']]
+                if op == 'renumber':
+                    # the renaming Lcapy actually performed, read off its output; it must be an injective function
+                    ans = drv.ask1('rw.renaming || %s ### %s' % (' | '.join(orig_lines), ' | '.join(new_lines)))
+                    chk.count('renaming', ans.split(' ')[0])
+                    if ans.startswith('ok'):
+                        ren = dict(x.split(':') for x in ans[2:].strip().split(',') if x)
+                    else:
+                        counterexamples += 1
+                        chk.counterexample({'rewrite': 'renumber', 'cause': ans.split(' ')[0]},
+                                           {'input': {'lines': c['lines'], 'rewrite': rw, 'pts': c['pts'], 's0': c['s0'],
+                                                      'features': c['features'], 'flavour': c['flavour']},
+                                            'python_hash_seed': hs, 'lcapy': rr.get('text'), 'model': model_raw[:800] if model_raw else None,
+                                            'spec': 'Rewrite.renamingOf / notInjective: %s' % ans},
+                                           'renumber does not rename the nodes injectively (%s): distinct nodes are merged' % ans)
+                        continue
                 verdict = None
                 if rr.get('sol') is None:
                     verdict = 'unsolvable:' + rr.get('sol_err', '?').split(':')[0]
